@@ -41,6 +41,22 @@ pub enum AppRel {
 pub enum Case {
     Valve { players: u8, rules: u8, check: bool, rel: AppRel, sec_players: Sec, sec_rules: Sec, via_generic: bool, idx: u64 },
     Unreal2 { players: u8, rules: u8, sec_players: Sec, sec_rules: Sec, via_generic: bool, idx: u64 },
+    /// the app-id decision alone, over arbitrary expected ids and reported ids
+    AppId { main: u32, dedicated: Option<u32>, reported: u32, check: bool, idx: u64 },
+}
+
+/// Expected / reported ids that change how the reply is parsed (The Ship, CS:S, RoR2) are kept out of the app-id grid.
+fn plain_id(x: u32) -> u32 { if [2400, 240, 632_360].contains(&x) { x + 1 } else { x & 0xFF_FFFF } }
+
+fn appid_edges(main: u32, dedicated: Option<u32>) -> Vec<u32> {
+    let mut v = vec![0, 1, main, main.wrapping_sub(1), main + 1, main & 0xFFFF, main ^ 0x1_0000, main >> 8, 0xFFFF, 0x1_0000, 0xFF_FFFF];
+    if let Some(d) = dedicated {
+        v.extend([d, d.wrapping_sub(1), d + 1, d & 0xFFFF, d ^ 0x1_0000]);
+    }
+    let mut v: Vec<u32> = v.into_iter().map(|x| x & 0xFF_FFFF).filter(|x| ![2400, 240, 632_360].contains(x)).collect();
+    v.sort();
+    v.dedup();
+    v
 }
 
 pub struct C11;
@@ -81,7 +97,7 @@ impl Prop for C11 {
          reference server. Oracle, evaluated in request order: Skip => no request of that kind on the wire and the section absent; Try + failure => section absent, rest of \
          the response equal to the fault-free response; Enforce + failure => the query fails (PacketReceive for silence, a parse-class error for a malformed reply) and no \
          later section is requested; app id: BadGame iff check on and an expectation exists and the id is neither the main nor the dedicated one, decided before any \
-         players / rules request. non-trivial = a non-valid outcome or a non-default toggle; distinct = digest of the case"
+         players / rules request; an additional app-id grid draws arbitrary (main, dedicated) expectations and reported ids from the edge set around them (0, 1, ±1, same low 16 bits, bit 16 flipped, 16/24-bit limits) and at random. non-trivial = a non-valid outcome or a non-default toggle; distinct = digest of the case"
             .into()
     }
 
@@ -92,10 +108,19 @@ impl Prop for C11 {
         ]
     }
 
-    fn random_cases(&self, _tier: Tier) -> u64 { 0 }
+    fn random_cases(&self, tier: Tier) -> u64 { tier.pick(3000, 200_000) }
 
     fn strategy(&self, _tier: Tier) -> BoxedStrategy<Case> {
-        Just(Case::Unreal2 { players: 1, rules: 2, sec_players: Sec::Valid, sec_rules: Sec::Valid, via_generic: false, idx: 0 }).boxed()
+        // random expected ids; the reported id is drawn from the edge set around them or at random
+        (0u32 ..= 0xFF_FFFF, proptest::option::of(0u32 ..= 0xFF_FFFF), any::<proptest::sample::Index>(), 0u32 ..= 0xFF_FFFF, 0u8 .. 4, any::<bool>(), 0u64 .. 64)
+            .prop_map(|(main, dedicated, pick, random, how, check, idx)| {
+                let main = plain_id(main);
+                let dedicated = dedicated.map(plain_id).filter(|d| *d != main);
+                let edges = appid_edges(main, dedicated);
+                let reported = if how == 0 { plain_id(random) } else { edges[pick.index(edges.len())] };
+                Case::AppId { main, dedicated, reported, check, idx }
+            })
+            .boxed()
     }
 
     fn enumerated<'a>(&'a self, tier: Tier, shard: usize, nshards: usize) -> Box<dyn Iterator<Item = Case> + 'a> {
@@ -128,12 +153,26 @@ impl Prop for C11 {
                 }
             }
         }
+        let mut k = 0u64;
+        for main in [1u32, 440, 0xFFFF, 0x1_0000, 736_590, 0xFF_FFFF] {
+            for dedicated in [None, Some(0u32), Some(1), Some(950_900), Some(main ^ 0x1_0000), Some(main & 0xFFFF)] {
+                if dedicated == Some(main) {
+                    continue;
+                }
+                for reported in appid_edges(main, dedicated) {
+                    for check in [true, false] {
+                        k += 1;
+                        v.push(Case::AppId { main, dedicated, reported, check, idx: k % nstates.max(8) });
+                    }
+                }
+            }
+        }
         Box::new(v.into_iter().enumerate().filter(move |(i, _)| i % nshards == shard).map(|(_, c)| c))
     }
 
     fn exhaustive_subspaces(&self, tier: Tier) -> Vec<String> {
         vec![format!(
-            "Valve: 9 toggle pairs x 16 outcome pairs x 5 app-id relations x check on/off x 2 call paths x {} states; Unreal 2: 9 x 9 x 2 call paths x {} states",
+            "Valve: 9 toggle pairs x 16 outcome pairs x 5 app-id relations x check on/off x 2 call paths x {} states; Unreal 2: 9 x 9 x 2 call paths x {} states; app-id grid: 6 main ids x 6 dedicated choices x edge set of reported ids x check on/off",
             tier.pick(4, 200),
             tier.pick(16, 800)
         )]
@@ -254,6 +293,42 @@ impl Prop for C11 {
                     }
                     (None, other) => {
                         o.fail(format!("C11|{sigbase}|query must succeed|{}", other.kind_str()), detail(json!({})));
+                    }
+                }
+            }
+            Case::AppId { main, dedicated, reported, check, idx } => {
+                let engine = EngineSel::Source(*main, *dedicated);
+                let entry = Entry::Valve { engine, players: 1, rules: 1, check: *check };
+                let mut st = state_for_entry(&entry, *idx);
+                if let FamState::Valve(v) = &mut st {
+                    set_appid(v, *reported);
+                }
+                let expected_id = *reported == *main || Some(*reported) == *dedicated;
+                o.label(format!(
+                    "app-id grid: {} check={check}",
+                    if *reported == *main { "main" } else if expected_id { "dedicated" } else if *reported == 0 { "zero" } else if *reported & 0xFFFF == *main & 0xFFFF { "same low 16 bits" } else { "other" }
+                ));
+                o.label(if dedicated.is_some() { "app-id grid: with dedicated id" } else { "app-id grid: main id only" });
+                o.nontrivial = !(*reported == *main);
+                let run = run_scripted(st.responder(), || entry.call_json(&ip, 27015, 0));
+                let detail = || json!({"case": format!("{case:?}"), "result": run.ended.kind_str(), "wire": render_log(&run.log[.. run.log.len().min(12)])});
+                match (&run.ended, *check && !expected_id) {
+                    (Ended::Err(GDErrorKind::BadGame), true) => {
+                        let fam = Family::Valve(engine);
+                        if count_requests(&run.log, fam, 1) + count_requests(&run.log, fam, 2) > 0 {
+                            o.fail("C11|valve::query|app-id grid|section requested after a failed app-id check", detail());
+                        }
+                    }
+                    (other, true) => {
+                        o.fail(format!("C11|valve::query|app-id grid|expected BadGame failure|{}", other.kind_str()), detail());
+                    }
+                    (Ended::Ok(got), false) => {
+                        if got["info"]["appid"] != json!(*reported) {
+                            o.fail("C11|valve::query|app-id grid|reported id not in the response", detail());
+                        }
+                    }
+                    (other, false) => {
+                        o.fail(format!("C11|valve::query|app-id grid|query must succeed|{}", other.kind_str()), detail());
                     }
                 }
             }
